@@ -14,6 +14,7 @@ import (
 )
 
 const nonceSize = 12
+const tagSize = 16
 
 // New128 returns AES GCM encryption algorithm using 128-bit key.
 func New128() enc.Algorithm {
@@ -102,6 +103,9 @@ func (alg *algorithm) Decrypt(cek, iv, aad, ciphertext, authTag []byte) (plainte
 	}
 	if len(iv) != nonceSize {
 		return nil, fmt.Errorf("agcm: the size of IV must be %d bytes, but got: %d", nonceSize, len(iv))
+	}
+	if len(authTag) != tagSize {
+		return nil, fmt.Errorf("agcm: the size of authentication tag must be %d bytes, but got: %d", tagSize, len(authTag))
 	}
 
 	// decrypt
